@@ -718,6 +718,12 @@ func c04c(c *Ctx, r *Report) {
 		}
 	}
 
+	// (5b) the %prec operand and the precedence-line operands are named like the declared tokens
+	for _, fn := range []string{"parseRule", "parsePrecList"} {
+		if f := c.need(r, clause, "Parser", "parser", fn); f != nil {
+			c10LiteralNames(c, r, f, clause)
+		}
+	}
 	// (6) the resolver's inputs: REDUCE ← rule's PrecSymbol, SHIFT ← the symbol
 	if f := c.need(r, clause, "LALR", "LALR1", "CheckAndResolveConflict"); f != nil {
 		c04cActionFields(c, r, f)
